@@ -1067,6 +1067,9 @@ class _Ctx:
         c = self.formula(self.ev(e.test, st), st)
         a = self.ev(e.body, st)
         b = self.ev(e.orelse, st)
+        d = self.decide(st, c) if self.opts.prune else None
+        if d is not None:
+            c = FConst(d)
         if c == FTrue:
             return a
         if c == FFalse:
@@ -1302,6 +1305,10 @@ class _Ctx:
             callee = tgt.funcs[0]
             cname = callee.qualname
             if tgt.via == 'ctor':
+                if isinstance(f, ast.Name) and f.id in st.env:
+                    # the class comes from a variable (static type Type[C]): keep which variable, the dynamic class may
+                    # be any subclass
+                    kwt = tuple(sorted(kwt + (('<cls>', st.env[f.id]),)))
                 r = App('new:' + tgt.ctor_class.qualname, tuple(args), kwt)
                 ev = self.emit(st, 'call', e, targets=tgt.funcs, target_kind='pkg', callee_name=cname, recv=r,
                                args=tuple(args), kw=kwt, via='ctor', expr=e, result=r, ctor_class=tgt.ctor_class)
@@ -1367,6 +1374,18 @@ class _Ctx:
                     cond = FTrue
                 if not rs.exact:
                     cond = FTrue if cond == FFalse else cond
+                if tgt.via == 'ctor' and callee.params:
+                    # stores into the object under construction are stores into a fresh object
+                    me = Sym(callee.params[0])
+
+                    def _self_rooted(ev):
+                        r = ev.data.get('root')
+                        while isinstance(r, (Attr, Sub)):
+                            r = r.base
+                        return r == me
+                    kept = [w for w in rs.writes_before if not _self_rooted(w)]
+                    if len(kept) != len(rs.writes_before):
+                        rs = RaiseSummary(rs.exc, rs.cond, kept, rs.line, rs.via, rs.exact)
                 pend.append((rs, cond))
         if pend:
             ev.data['_pending_raises'] = pend
